@@ -5,4 +5,4 @@ case "$1" in
   native) export CARGO_TARGET_DIR=/verif/harness/target-native RUSTFLAGS="--cfg zlink_verif";;
   small) export CARGO_TARGET_DIR=/verif/harness/target-small RUSTFLAGS="--cfg zlink_verif --cfg zlink_verif_small_buf";;
 esac
-cargo build --release 2>&1 | grep -E "^(error|warning)" -A12 | head -${2:-60}
+flock /root/repo.lock cargo build --release 2>&1 | grep -E "^(error|warning)" -A12 | head -${2:-60}
